@@ -90,6 +90,7 @@ def run(repo: Repo, rep: Report, tier: str) -> None:
     _guarded(rep, rule_cyclic_model_imports, repo, rep, "R1.19")
     _guarded(rep, rule_fields_do_not_shadow_imports, repo, rep, "R1.21")
     _guarded(rep, rule_import_registration_not_memoised, repo, rep, "R1.22")
+    _guarded(rep, rule_resolver_types_are_registered, repo, rep, "R1.26")
     from rules.c20 import rule_signature_builders_decollide
 
     _guarded(rep, rule_signature_builders_decollide, repo, rep, "R1.25")
@@ -1342,3 +1343,152 @@ def rule_import_registration_not_memoised(repo: Repo, rep, rule: str = "R1.22") 
                           "collector): in every file after the first the imports this call should register are missing - e.g. `Any` in client.py", f"{mod.relpath}:{st.lineno}")
     else:
         rep.ok(rule, sub, f"{n} registering methods: none is skipped on account of a record that outlives the per-file reset", f"{mod.relpath}:1")
+
+
+# ---------------------------------------------------------------------------------------------------------------- R1.26
+_R126_BUILTIN = {"str", "int", "float", "bool", "bytes", "dict", "list", "tuple", "set", "frozenset", "object", "None", "True", "False", "type", "complex"}
+_R126_EXAMPLE = '''
+def _resolve_string(self, schema, context, required):
+    cls = "IPv4Address" if schema.format == "ipv4" else "IPv6Address"
+    if schema.format == "date":
+        context.add_import("datetime", "date")
+        return ResolvedType(python_type="date")
+    return ResolvedType(python_type=cls, needs_import=True, import_module="ipaddress", import_name=cls)
+'''
+
+
+def _r126_consts(fn_node: ast.AST, e: ast.AST, depth: int = 0) -> set[str] | None:
+    """Constant strings expression `e` can evaluate to (None: not all known; constant fragments of f-strings count as far as known)."""
+    if isinstance(e, ast.Constant):
+        return {e.value} if isinstance(e.value, str) else set()
+    if isinstance(e, ast.JoinedStr):
+        return {v.value for v in e.values if isinstance(v, ast.Constant) and isinstance(v.value, str)}
+    if isinstance(e, ast.IfExp):
+        a, b = _r126_consts(fn_node, e.body, depth), _r126_consts(fn_node, e.orelse, depth)
+        return (a or set()) | (b or set())
+    if isinstance(e, ast.BoolOp):
+        out: set[str] = set()
+        for v in e.values:
+            out |= _r126_consts(fn_node, v, depth) or set()
+        return out
+    if isinstance(e, ast.Dict):
+        out = set()
+        for v in e.values:
+            out |= _r126_consts(fn_node, v, depth) or set()
+        return out
+    if isinstance(e, ast.Call) and isinstance(e.func, ast.Attribute) and e.func.attr == "get" and e.args:
+        out = _r126_consts(fn_node, e.func.value, depth) or set()
+        for d in e.args[1:]:
+            out |= _r126_consts(fn_node, d, depth) or set()
+        return out
+    if isinstance(e, ast.Subscript):
+        return _r126_consts(fn_node, e.value, depth)
+    if isinstance(e, ast.Name) and depth < 4:
+        out = set()
+        for n in ast.walk(fn_node):
+            if isinstance(n, ast.Assign) and any(isinstance(t, ast.Name) and t.id == e.id for t in n.targets):
+                out |= _r126_consts(fn_node, n.value, depth + 1) or set()
+            elif isinstance(n, ast.AnnAssign) and isinstance(n.target, ast.Name) and n.target.id == e.id and n.value is not None:
+                out |= _r126_consts(fn_node, n.value, depth + 1) or set()
+        return out
+    return set()
+
+
+def _r126_names(consts: set[str]) -> set[str]:
+    import re as _re
+
+    out: set[str] = set()
+    for c in consts:
+        # quoted forward references and literal values inside Literal[...] are not names
+        c = _re.sub(r"'[^']*'|\"[^\"]*\"", "", c)
+        out |= {t for t in _re.findall(r"[A-Za-z_][A-Za-z0-9_]*", c) if t not in _R126_BUILTIN}
+    return out
+
+
+def _r126_function(fn_node: ast.AST, helpers: dict[str, ast.AST], fields_consumed: bool) -> tuple[int, list[tuple[str, ast.AST]]]:
+    """(number of type constructions with known names, [(name, construct)] lacking a registration in the function)."""
+    registered: set[str] = set()
+    wildcard = False
+    for c in ast.walk(fn_node):
+        if not isinstance(c, ast.Call):
+            continue
+        f = c.func
+        fname = f.attr if isinstance(f, ast.Attribute) else f.id if isinstance(f, ast.Name) else None
+        if fname in ("add_import", "add_typing_imports_for_type", "add_plain_import", "add_conditional_import"):
+            for a in list(c.args) + [k.value for k in c.keywords]:
+                registered |= _r126_names(_r126_consts(fn_node, a) or set())
+        elif fname in helpers and fname != getattr(fn_node, "name", None):
+            # a helper of the same module that registers what it is given
+            wildcard = True
+    sites = 0
+    missing: list[tuple[str, ast.AST]] = []
+    for c in ast.walk(fn_node):
+        if not (isinstance(c, ast.Call) and (getattr(c.func, "id", None) == "ResolvedType" or getattr(c.func, "attr", None) == "ResolvedType")):
+            continue
+        pt = next((k.value for k in c.keywords if k.arg == "python_type"), c.args[0] if c.args else None)
+        if pt is None:
+            continue
+        names = _r126_names(_r126_consts(fn_node, pt) or set())
+        if not names:
+            continue
+        sites += 1
+        if wildcard:
+            continue
+        if fields_consumed and any(k.arg == "import_module" for k in c.keywords) and any(k.arg == "import_name" for k in c.keywords):
+            continue
+        for nm in sorted(names - registered):
+            missing.append((nm, c))
+    return sites, missing
+
+
+def rule_resolver_types_are_registered(repo: Repo, rep, rule: str = "R1.26") -> None:
+    """The resolver answers with a type *string*; the only channel by which the module that uses the string gets the name bound is
+    `context.add_import(...)` made while resolving (nothing reads `ResolvedType.needs_import / import_module / import_name`). A branch that answers
+    with a class name - `UUID`, `date`, `IPv4Address`, `List[...]` - without registering it in the same function yields `NameError` when the
+    generated model module is imported (annotations of dataclass fields are evaluated)."""
+    ex = ast.parse(_R126_EXAMPLE).body[0]
+    n, miss = _r126_function(ex, {}, False)
+    rep.require(n == 2 and {m for m, _ in miss} == {"IPv4Address", "IPv6Address"}, f"{rule}: the built-in positive example is no longer recognised - the rule is broken")
+    # is there a consumer of the descriptive fields that registers the import?
+    fields_consumed = False
+    for mod in repo.modules.values():
+        if mod.name.endswith(("contracts.types",)) or ".types.contracts" in "." + mod.name:
+            continue
+        for fn in mod.functions.values():
+            reads = any(isinstance(a, ast.Attribute) and a.attr == "import_module" and isinstance(a.ctx, ast.Load) for a in ast.walk(fn.node))
+            regs = any(isinstance(c, ast.Call) and getattr(c.func, "attr", None) == "add_import" for c in ast.walk(fn.node))
+            if reads and regs:
+                fields_consumed = True
+    total = 0
+    bad = 0
+    seen_mod = 0
+    for mod in repo.modules.values():
+        if ".types.resolvers." not in "." + mod.name + ".":
+            continue
+        seen_mod += 1
+        helpers = {}
+        for fn in mod.functions.values():
+            if "<locals>" in fn.qualname:
+                continue
+            ps = set(fn.params)
+            if any(isinstance(c, ast.Call) and getattr(c.func, "attr", None) == "add_import" and any(isinstance(a, ast.Name) and a.id in ps for a in c.args[1:2])
+                   for c in ast.walk(fn.node)) and not any(isinstance(c, ast.Call) and getattr(c.func, "id", None) == "ResolvedType" for c in ast.walk(fn.node)):
+                helpers[fn.name] = fn.node
+        for fn in mod.functions.values():
+            if "<locals>" in fn.qualname:
+                continue
+            n, miss = _r126_function(fn.node, helpers, fields_consumed)
+            total += n
+            for nm, c in miss:
+                bad += 1
+                rep.violation(rule, f"{mod.relpath}:{fn.qualname} answers with type name `{nm}`", f"{mod.name}:{fn.qualname}|resolved-type-name-unregistered|{nm}",
+                              f"`ResolvedType(python_type=...)` can be `{nm}` but the function registers no import for `{nm}` (`context.add_import`); the fields "
+                              "`needs_import/import_module/import_name` have no consumer, so the generated model module uses an unbound name and fails at import",
+                              f"{mod.relpath}:{c.lineno}")
+    if not seen_mod:
+        raise AnalysisError(f"{rule}: anchor vanished: types.resolvers")
+    rep.count(f"{rule}:named_type_constructions", total)
+    rep.require(total >= 8, f"{rule}: only {total} `ResolvedType(python_type=<known names>)` constructions found in the resolvers (floor 8)")
+    if not bad:
+        rep.ok(rule, "types/resolvers: every type name a resolver branch can answer with is registered as an import in that branch's function",
+               f"{total} constructions with statically known names; descriptive import fields consumed: {fields_consumed}", "src/pyopenapi_gen/types/resolvers/schema_resolver.py:1")
